@@ -168,7 +168,8 @@ def main():
             runs.append({"at": time.strftime("%Y-%m-%dT%H:%M:%SZ", time.gmtime()), "tier": tier, "verif_commit": sh("git rev-parse --short HEAD", cwd=V)[1].strip(), "results": r})
             json.dump(meta, open(os.path.join(V, "seeded", sid, "meta.json"), "w"), indent=1)
             sys.stdout.flush()
-        sh("./check build", cwd=V)
+        if not os.environ.get("SEED_NO_REBUILD"):
+            sh("./check build", cwd=V)
 
 
 main()
